@@ -14,7 +14,7 @@ PROP = dict(
     mismatch_is_violation=False,
     rule="programs: every `let src = …` literal of /repo/abra_core/tests/integration/e2e_bytecode.rs (175) plus hand-written "
          "ones (the D10 shapes, comment openers inside strings, quotes inside comments) plus generated programs with explicit "
-         "separator slots; each is lexed by the real lexer and re-printed (2 rounds quick / 12 thorough) in three ways: block "
+         "separator slots; each is lexed by the real lexer and re-printed (2 rounds quick / 12 thorough; the last four modes in the first half of the rounds) in five modes — comments, blank lines, separators, continuation lines, terminators — plus fixed shebang-line and D85 probe pairs and a top-level family (15 fixed + 400 quick / 4000 thorough random sequences of items, `;` and line breaks): block "
          "comments and line comments inserted at random token boundaries (after identifiers, numbers, strings, punctuation, "
          "newlines, at the start; text over {letters, `*`, `/`, `**`, `//`, both quotes, `\"\"\"`, backslash, non-ASCII, keywords, "
          "brackets, newlines, `#!`}, never `*/`), newlines doubled/tripled (blank lines, also with trailing blanks), and "
@@ -36,14 +36,18 @@ PROP = dict(
         "struct bodies take line breaks only (`,` between fields is rejected by the unchanged parser), enum variants have no separator",
         "a block comment is not placed directly after a `/` token without a space (`//*` reads as a line comment); a line comment is only "
         "placed where the rest of the line holds no token",
-        "the separator theorem is about the model of parse_delimited_list with `,` (Abra.Pratt.parseList); `;` in blocks and after "
-        "top-level items goes through the same function resp. parse_file and is covered by the correspondence only",
+        "the separator theorem is about the model of parse_delimited_list with `,` (Abra.Pratt.parseList) and does not cover a trailing "
+        "separator before the closer; the optional `;` after top-level items is proved on the model of parse_file's item loop "
+        "(Abra.TopLevel: C29_toplevel_terminator, C29_stray_semicolon_rejected); `;` inside blocks (the same parse_delimited_list with "
+        "`;` as separator) and trailing separators are covered by the correspondence only",
     ],
     design_ref="DESIGN.md §6 C29",
     level_text="Theorems about the Lean lexer model: block comments (any text without `*/`), line comments, blanks and line "
                "continuations emit no token and leave the kinds of the rest unchanged, so a comment equals one space in front of "
-               "any input, and written at a token boundary of any file it changes no token kind of the whole file. About the parser model: "
-               "parse_delimited_list returns the same items for `,`, newline, either followed by blank lines, leading newlines. "
+               "any input, and written behind a space at a token boundary of a file whose prefix holds no triple-quoted literal it changes no "
+               "token kind of the whole file; a `#!` first line contributes no token. About the parser models: parse_delimited_list returns the "
+               "same items for `,`, newline, either followed by blank lines, leading newlines (no trailing separator); parse_file's item loop "
+               "accepts every file whose `;` each directly follow an item, and rejects a leading, doubled or own-line `;`. "
                "Tied to /repo on every run by re-printing /repo's own test programs with inserted comments and varied separators.",
     level_note="C29_block/line_comment_insertion cover a comment written behind a space at any token boundary of any file whose prefix "
                "holds no triple-quoted literal (locality of lexOne proved for every other token class); prefixes with triple-quoted "
